@@ -14,21 +14,21 @@ open Gen
 /-- **injection of one base**: the functions added for a base field are exactly `specInject` -/
 theorem addFunctions_spec (base : String) (acc : InjAcc) (fs : List SFunc) :
     (addFunctions base acc fs).fns = acc.fns ++ specInject base acc.used fs
-    ∧ (addFunctions base acc fs).used = usedAfter base acc.used fs := by
-  sorry
+    ∧ (addFunctions base acc fs).used = usedAfter base acc.used fs :=
+  addFunctions_spec_lem base acc fs
 
 /-- every public function of the base is re-exposed, once, under its own name or `<field>_<name>`,
     with its receiver, parameters, return type and convention unchanged, forwarding to the original -/
 theorem every_public_reexposed (base : String) (used : List String) (fs : List SFunc) (f : SFunc)
     (hf : f ∈ fs) (hp : f.vis = .pub) :
     ∃ g ∈ specInject base used fs, g.body = .field base f.name ∧ (g.name = f.name ∨ g.name = base ++ "_" ++ f.name)
-      ∧ g.args = f.args ∧ g.ret = f.ret ∧ g.cc = f.cc ∧ g.vis = .pub := by
-  sorry
+      ∧ g.args = f.args ∧ g.ret = f.ret ∧ g.cc = f.cc ∧ g.vis = .pub :=
+  every_public_reexposed_lem base used fs f hf hp
 
 /-- private functions of a base are not re-exposed -/
 theorem private_not_reexposed (base : String) (used : List String) (fs : List SFunc) :
-    ∀ g ∈ specInject base used fs, ∃ f ∈ fs, f.vis = .pub ∧ g.body = .field base f.name := by
-  sorry
+    ∀ g ∈ specInject base used fs, ∃ f ∈ fs, f.vis = .pub ∧ g.body = .field base f.name :=
+  private_not_reexposed_lem base used fs
 
 /-- **all bases, in order; vftable functions of every base but the first**: the injection loop adds, for
     the `i`-th base region whose type is resolved, that type's associated functions (which by the same
@@ -47,15 +47,15 @@ theorem injectBases_step (reg : Registry) (acc : InjAcc) (i : Nat) (r : Region) 
               else acc1)
         | e => e.cast) acc [(i, r)]
       = .ok (let acc1 := addFunctions name acc td.fns
-             if i > 0 then (match td.vft with | some v => addFunctions name acc1 v.fns | none => acc1) else acc1) := by
-  sorry
+             if i > 0 then (match td.vft with | some v => addFunctions name acc1 v.fns | none => acc1) else acc1) :=
+  injectBases_step_lem reg acc i r name td h
 
 /-- the emitted forwarding method calls `self.<field>.<original name>(..)` with the receiver dropped
     and the remaining arguments in declared order -/
 theorem forwarder_shape (f : SFunc) (fld fn : String) (h : f.body = .field fld fn) :
     ∃ hd, Emit.methodS f = Sexp.mk "method" (hd ++
-      [Sexp.mk "call-field" [.str fld, .str fn, Sexp.mk "args" ((f.args.filter (!·.isSelf)).map Emit.callArgS)]]) := by
-  sorry
+      [Sexp.mk "call-field" [.str fld, .str fn, Sexp.mk "args" ((f.args.filter (!·.isSelf)).map Emit.callArgS)]]) :=
+  forwarder_shape_lem f fld fn h
 
 /-- **conversions**: for each base in the hierarchy, in hierarchy order: one AsRef and one AsMut along
     its field path if its type occurs once, a marker constant (and no conversion) if it occurs more
@@ -70,8 +70,8 @@ theorem conversions_emitted (reg : Registry) (path : Path) (size align : Nat) (v
         else
           [Sexp.mk "asref" [.str name, .str (Emit.rtyStr ty), Sexp.mk "fp" (fp.map .str)],
            Sexp.mk "asmut" [.str name, .str (Emit.rtyStr ty), Sexp.mk "fp" (fp.map .str)]]) ++
-      [Sexp.mk "asref" [.str name, .str name, Sexp.mk "fp" []], Sexp.mk "asmut" [.str name, .str name, Sexp.mk "fp" []]] := by
-  sorry
+      [Sexp.mk "asref" [.str name, .str name, Sexp.mk "fp" []], Sexp.mk "asmut" [.str name, .str name, Sexp.mk "fp" []]] :=
+  conversions_emitted_lem reg path size align vis td
 
 /-- **the hierarchy lists every direct base, and below each of them its own hierarchy** (so every
     transitive base, with the field path that leads to it) -/
@@ -80,7 +80,7 @@ theorem dfs_unfold (reg : Registry) (fuel : Nat) (td : TypeDefn) (fields : List 
       (td.regions.filter (·.isBase)).flatMap fun r =>
         match regionNameAndTypeDef reg r with
         | .ok (some (name, btd)) => (fields ++ [name], r.ty) :: Emit.dfsHierarchy reg fuel btd (fields ++ [name])
-        | _ => [] := by
-  sorry
+        | _ => [] :=
+  dfs_unfold_lem reg fuel td fields
 
 end PyxisVerif.C07
